@@ -363,6 +363,21 @@ def stepEffect (st : Store) : List String → Option (Effect × String)
     if cs.length ≠ g.coords.size ∨ sn.length ≠ g.coords.size then none else
     if g.system ≠ .polar ∨ g.coords.ndim ≠ 2 then pure (Effect.keep, "err value") else
     pure (Effect.keep, "ok " ++ showRatLists (g.coords.asCartPts (List.zip cs sn)))
+  | ["kinds"] => pure (Effect.keep, "ok k" ++ String.join (st.map fun g => toString g.coords.kind))
+  -- the right-hand sides of the `points_*` theorems: the images of the CURRENT points under the map the operation stands for
+  | ["image", i, "scale", a] => do
+    let i ← parseNat? i; let g ← st[i]?; let a ← parseScaleArg? a
+    let f := if g.system = .polar then (match a with | .scalar k => [k, 1] | .vector v => v) else a.factors g.coords.ndim
+    pure (Effect.keep, "ok " ++ showRatLists (g.coords.points.map (scalePt f)))
+  | ["image", i, "shift", b] => do
+    let i ← parseNat? i; let g ← st[i]?; let b ← parseRatList? b
+    pure (Effect.keep, "ok " ++ showRatLists (g.coords.points.map (shiftPt b)))
+  | ["image", i, "reverse"] => do
+    let i ← parseNat? i; let g ← st[i]?
+    pure (Effect.keep, "ok " ++ showRatLists g.coords.points.reverse)
+  | "image" :: i :: "rotate" :: m => do
+    let i ← parseNat? i; let g ← st[i]?; let m ← parseMatrix? m
+    pure (Effect.keep, "ok " ++ showRatLists (g.coords.points.map (linPt m)))
   | ["size", i] => do
     let i ← parseNat? i; let g ← st[i]?
     pure (Effect.keep, s!"ok {g.coords.size} {g.coords.ndim}")
